@@ -1,6 +1,6 @@
 (* Extraction of the pcp models (receiver: PcpSink).  ExtrOcamlBasic only. *)
 From Coq Require Import ExtrOcamlBasic.
-From PV Require Import Pcp.FsModel Pcp.PcpSink.
+From PV Require Import Pcp.FsModel Pcp.PcpSink Pcp.PcpClient.
 Extraction Language OCaml.
 Set Extraction KeepSingleton.
-Extraction "pcp_model.ml" sink touched replies lookup.
+Extraction "pcp_model.ml" sink touched replies lookup expand_dirs client copy exchange seen_replies run_copy.
